@@ -101,11 +101,16 @@ pub fn judge_c15(cfg: &HybCfg, ops: &[HOp], trace: &HTrace) -> (Vec<Failure>, C1
             for (i, r) in gen0.iter().enumerate() {
                 if i >= pre && i < close_log && r.kind == IoKind::Write {
                     if let WriteKind::Data(es) = classify_write(r.part, r.offset, r.data.as_ref().unwrap(), cfg.blob_index_size, tomb) {
-                        failures.push(Failure::new(
-                            "close-wrote-entries-with-flush-on-close-disabled",
-                            format!("close() with flush_on_close disabled wrote {} entries to the device", es.len()),
-                        ));
-                        break;
+                        // with held io, entries queued before close() (evicted earlier, possibly loaded back into
+                        // memory from the write queue since) are legitimately written while close drains the queue:
+                        // the clause is only decidable when nothing was pending, i.e. without held io
+                        if !cfg.hold_io && !es.is_empty() {
+                            failures.push(Failure::new(
+                                "close-wrote-entries-with-flush-on-close-disabled",
+                                format!("close() with flush_on_close disabled wrote {} entries to the device", es.len()),
+                            ));
+                            break;
+                        }
                     }
                 }
             }
@@ -115,7 +120,22 @@ pub fn judge_c15(cfg: &HybCfg, ops: &[HOp], trace: &HTrace) -> (Vec<Failure>, C1
         return (failures, flags);
     }
     // after reopen: every recorded disk-allowed resident entry must hit with exactly its version
-    let shed = first_shed_step(cfg, trace).is_some();
+    // Proviso "the resident set fits the flush buffer": entries shed before close() was called (write-queue backlog
+    // overflowing under held io) put the case outside the claim; shedding that first happens during close() is only
+    // excused if the resident set alone (page-aligned entries) does not fit one flusher's buffer - close() drains the
+    // backlog before it hands the resident set to the flushers.
+    let shed_step = first_shed_step(cfg, trace);
+    let resident_aligned: usize = snapshot
+        .iter()
+        .filter(|(k, _)| cfg.key_class.get(*k as usize).copied().unwrap_or(KeyClass::DiskAllowed) != KeyClass::MemOnly)
+        .map(|(_, v)| tl.version_info.get(v).map(|(_, l)| (*l + crate::hybsim::ENTRY_OVERHEAD).div_ceil(4096) * 4096).unwrap_or(4096))
+        .sum();
+    let fits = resident_aligned <= (cfg.buffer_pool_size / cfg.flushers) / 4096 * 4096;
+    let shed = match shed_step {
+        None => false,
+        Some(s) if s < ci => true,
+        Some(_) => !fits,
+    };
     let lookups: BTreeMap<u64, &LookupOut> = trace
         .tasks
         .iter()
@@ -205,14 +225,21 @@ pub fn c15_case() -> impl Strategy<Value = HybCase> {
         .prop_map(|(mut cfg, pre, post, variant, mem, hold)| {
             let no_close = variant == 0;
             let crash_at_close = variant == 1 || variant == 2;
-            cfg.hold_io = crash_at_close && hold;
+            // tight: io is held while the history runs, so evictions / inserts pile up in the write queue, and the
+            // flush buffer is only a little larger than what memory can hold: backlog + resident set exceed it,
+            // each alone fits
+            let tight = variant == 3 || variant == 4;
+            cfg.hold_io = (crash_at_close && hold) || tight;
             // provisos: the device is large enough that nothing is reclaimed, the flush buffer holds the resident set
             cfg.blocks = 8;
             cfg.block_size = 64 * 1024;
             cfg.flushers = cfg.flushers.min(2);
             cfg.clean_block_threshold = 1;
             cfg.mem_capacity = mem;
-            cfg.buffer_pool_size = cfg.flushers * 16 * cfg.block_size;
+            cfg.buffer_pool_size = if tight { cfg.flushers * 24 * 4096 } else { cfg.flushers * 16 * cfg.block_size };
+            if tight {
+                cfg.mem_capacity = mem.min(60_000);
+            }
             let mut ops = pre;
             ops.push(HOp::SnapshotMem);
             if no_close {
@@ -260,6 +287,7 @@ pub fn exec_c15(case: &HybCase) -> CaseReport {
     cls!(f.no_close_variant, "drop-without-close");
     cls!(case.ops.iter().any(|o| matches!(o, HOp::CloseCrashReopen)), "process-dies-when-close-returns");
     cls!(case.cfg.hold_io, "held-io");
+    cls!(case.cfg.buffer_pool_size / case.cfg.flushers <= 24 * 4096, "tight-flush-buffer+backlog");
     cls!(f.reclaim_happened, "reclaim-happened(proviso)");
     let nontrivial = f.resident_with_older_disk_copy || f.inmem_resident_at_close || f.second_close;
     split_known("C15", failures, nontrivial, classes, false)
